@@ -179,7 +179,7 @@ def c09(tier, seed):
     c.required_points = ["WAITLIST_ULT_WAIT", "BROADCAST_ULT", "BROADCAST_EXT", "EVENTUAL_SET_REJECTED", "FUTURE_CALLBACK"]
     c.required_counters = ["eventual_epochs", "future_epochs", "sets_ok", "sets_rejected", "waits_returned",
                            "waits_started_before_set", "tests_ready", "tests_not_ready", "callbacks",
-                           "future_0_compartments_epochs"]
+                           "future_0_compartments_epochs", "reset_race_scenarios", "reset_race_waiters"]
     return c
 
 
